@@ -155,7 +155,27 @@ LongCases == {[kind |-> "seq", disk |-> LongDisk, label |-> "longname",
                     prog |-> [T1 |-> << C("HasFile", 1, LongNames[i], 0, 0), C("OpenFileEx", 1, LongNames[i], 0, 0),
                                         C("GetFileName", 2, "", 0, 0), C("GetFileName", 2, "", 0, 1), C("ReadFile", 2, "", 5, 0),
                                         C("ExtractFile", 1, LongNames[i], 0, 0), C("VerifyFile", 1, LongNames[i], 0, 0) >>]] : i \in 1..4}
-EnumCases == <<FillCase>> \o SetToSeq(ForgedCases) \o SetToSeq(LongCases) \o SetToSeq(LockOrderCases) \o SetToSeq(ThreeArch) \o SetToSeq(AllocChains) \o SetToSeq(BigCases)
+\* search masks x a listing with matching and non-matching entries interleaved (f0 f1 f2 g0 g1 n259 (listfile)):
+\* find iteration = the listing filtered by the mask, in order, every name once
+MaskDisk == [DiskJ EXCEPT !["A"] = [x \in Names |-> CASE x = "g0" -> <<9>> [] x = "g1" -> <<9, 9>> [] x = "n259" -> <<1>>
+                                                     [] OTHER -> DiskJ["A"][x]]]
+MaskCases == {[kind |-> "seq", disk |-> MaskDisk, label |-> "mask", setup |-> << C("OpenArchive", 0, "A", 0, 0) >>,
+               prog |-> [T1 |-> << C("FindFirst", 1, m, 0, 0) >> \o [i \in 1..8 |-> C("FindNext", 2, "", 0, 0)]
+                                  \o << C("FindClose", 2, "", 0, 0), C("EnumFiles", 1, "", 0, 0) >>]]
+                : m \in {"m0", "m1", "m2", "m3", "m4", "m5", "m6", "m7"}}
+\* frame condition "a call on archive A leaves every handle of B unchanged": archives 1 and 8 (both file "A", read-only)
+\* and the writable archive 2 hold same-named files; every mutating call on 2 is followed by probes of the file and
+\* search handles of 1 and 8
+XSetup == Setup \o << [C("AddFile", 2, "f0", 0, 0) EXCEPT !.dat = <<6, 6, 6>>], [C("AddFile", 2, "f1", 0, 0) EXCEPT !.dat = <<6>>],
+                       C("OpenArchive", 0, "A", 0, 0), C("OpenFileEx", 8, "f0", 0, 0), C("OpenFileEx", 2, "f0", 0, 0) >>
+XMut == { [C("RenameFile", 2, "f0", 0, 0) EXCEPT !.dat = <<"f3">>], C("RemoveFile", 2, "f0", 0, 0),
+          [C("AddFile", 2, "f0", 1, 0) EXCEPT !.dat = <<4, 4>>], [C("AddFile", 2, "f3", 0, 0) EXCEPT !.dat = <<4>>],
+          C("FlushArchive", 2, "", 0, 0), C("FlushArchive", 2, "", 1, 0), C("CloseArchive", 2, "", 0, 0), C("CloseFile", 10, "", 0, 0) }
+XProbes == << C("GetFileName", 3, "", 0, 0), C("GetFileSize", 3, "", 0, 0), C("ReadFile", 3, "", 1, 0), C("FindNext", 4, "", 0, 0),
+              C("GetFileName", 9, "", 0, 0), C("ReadFile", 9, "", 2, 0), C("HasFile", 1, "f0", 0, 0), C("HasFile", 8, "f3", 0, 0),
+              C("GetFileInfo", 9, "", 10, 8) >>
+XCases == {[kind |-> "seq", disk |-> DiskJ, setup |-> XSetup, label |-> "xarch", prog |-> [T1 |-> <<m>> \o XProbes]] : m \in XMut}
+EnumCases == <<FillCase>> \o SetToSeq(MaskCases) \o SetToSeq(XCases) \o SetToSeq(ForgedCases) \o SetToSeq(LongCases) \o SetToSeq(LockOrderCases) \o SetToSeq(ThreeArch) \o SetToSeq(AllocChains) \o SetToSeq(BigCases)
              \o SetToSeq({ECase(<<CallRec(p[1]), CallRec(p[2])>>, "closepair") : p \in ClosePairs})
              \o SetToSeq({ECase(<<CallRec(p[1]), CallRec(p[2])>>, "cursorpair") : p \in CursorPairs}) \o SetToSeq({ECase(<<CallRec(c)>>, "single") : c \in Singles})
              \o SetToSeq({ECase(<<CallRec(p[1]), CallRec(p[2])>>, "pair") : p \in Pairs})
